@@ -149,10 +149,21 @@ def _init_worker():
               suites={"basic": cs.G2Basic, "aug": cs.G2MessageAugmentation, "pop": cs.G2ProofOfPossession})
 
 
+class HonestError(Exception):
+    """SkToPk / Sign / PopProve raised on a valid secret key and a byte-string message (C01: they never do)."""
+
+
+def _honest(what, fn):
+    try:
+        return fn()
+    except Exception as e:  # noqa: BLE001
+        raise HonestError(f"{what} raised {type(e).__name__}: {e}"[:300]) from e
+
+
 class World:
     """Concrete values for the abstract names of one scenario (fresh random keys per scenario)."""
 
-    MLENS = [0, 1, 32, 55, 56, 63, 64, 65, 200, 2100]
+    MLENS = [0, 1, 32, 55, 56, 63, 64, 65, 200, 2100, 65500, 66000]     # beyond the 16-bit lengths of expand_message_xmd too
 
     def __init__(self, seed, nonempty_m1=False):
         ob = _W["ob"]
@@ -183,7 +194,7 @@ class World:
 
     def pk(self, name):
         if name not in self._pk:
-            self._pk[name] = _W["suites"]["basic"].SkToPk(self.sk(name))
+            self._pk[name] = _honest(f"SkToPk({name})", lambda: _W["suites"]["basic"].SkToPk(self.sk(name)))
         return self._pk[name]
 
     def msg(self, name):
@@ -201,9 +212,10 @@ class World:
         if t["kind"] == "rnd":
             return ob.multiply(ob.G2, self.rng.randrange(2, self.r))
         if t["kind"] == "pop":
-            sig = _W["suites"]["pop"].PopProve(self.sk(t["key"]))
+            sig = _honest("PopProve", lambda: _W["suites"]["pop"].PopProve(self.sk(t["key"])))
         else:
-            sig = _W["suites"][t["suite"]].Sign(self.sk(t["key"]), self.msg(t["msg"]))
+            sig = _honest(f"Sign ({t['suite']}, {len(self.msg(t['msg']))}-byte message)",
+                          lambda: _W["suites"][t["suite"]].Sign(self.sk(t["key"]), self.msg(t["msg"])))
         pt = g2p.signature_to_G2(sig)
         c = t["coef"]
         if c == 1:
@@ -217,8 +229,9 @@ class World:
         if len(desc) == 1 and desc[0]["kind"] in ("sign", "pop") and desc[0]["coef"] == 1:
             t = desc[0]                     # literally what Sign / PopProve returned
             if t["kind"] == "pop":
-                return _W["suites"]["pop"].PopProve(self.sk(t["key"]))
-            return _W["suites"][t["suite"]].Sign(self.sk(t["key"]), self.msg(t["msg"]))
+                return _honest("PopProve", lambda: _W["suites"]["pop"].PopProve(self.sk(t["key"])))
+            return _honest(f"Sign ({t['suite']}, {len(self.msg(t['msg']))}-byte message)",
+                           lambda: _W["suites"][t["suite"]].Sign(self.sk(t["key"]), self.msg(t["msg"])))
         acc = ob.Z2
         for t in desc:
             acc = ob.add(acc, self.term_point(t))
@@ -361,6 +374,9 @@ def _run_scenario(job):
         pks = [w.key_bytes(pk) for pk in sc["pks"]]
         ms = [w.msg(m) for m in sc["msgs"]]
         sig = w.sigval_bytes(sc["sig"])
+    except HonestError as e:          # honest key / signature production raised: a verdict (C01), not machinery
+        row["build_error"] = row["honest_error"] = str(e)
+        return row
     except Exception as e:  # noqa: BLE001 -- building the input failed: machinery, not a verdict
         row["build_error"] = f"{type(e).__name__}:{e}"[:200]
         return row
@@ -790,6 +806,12 @@ def run(ctx: Ctx, focus):
     # (B) spec -> code: the returned boolean must be the one TLC predicted for the enumerated scenario
     nb = 0
     for row in rows_run:
+        if "honest_error" in row:
+            sc = row["sc"]
+            ctx.violation(f"BlsHonest:{sc['suite']}:{sc['note']}",
+                          f"producing the honest inputs of scenario '{sc['note']}' ({sc['suite']}): {row['honest_error']}",
+                          {"scenario": sc})
+            continue
         if "build_error" in row:
             nb += 1
             continue
@@ -802,6 +824,7 @@ def run(ctx: Ctx, focus):
                           f"BlsModel.tla predicts {expect[i]}",
                           {"scenario": sc, "inputs": row.get("inputs"), "expect": expect[i], "got": row["got"],
                            "raised": row["raised"]})
+    ctx.note("scenarios_not_concretised", nb)
     if nb > max(3, len(rows_run) // 20):
         raise MachineryError(f"{nb} scenarios could not be concretised: "
                              f"{[r['build_error'] for r in rows_run if 'build_error' in r][:3]}")
